@@ -213,4 +213,5 @@ def install(it):
                 return Rope(ra.parts + rb.parts).simplify()
         return orig_concat(a, b)
     it.concat = concat
+    it.ROPES = True
     return it
